@@ -4,23 +4,23 @@ namespace Jug.Generated.Dump
 open Jug.FS
 /-- file-system operation sequences of the real file_store.dump / resave_pack, recorded for representative values -/
 def sequences : List (String × List FOp) := [
-  ("pickle-small", [.other "open-abkey0000000000000000000000000000000000.jugtmp", .write 2, .write 0, .write 24, .flush, .flush, .fsync, .close, .flush, .fsyncDir, .rename]),
-  ("pickle-large", [.other "open-abkey0000000000000000000000000000000000.jugtmp", .write 2, .write 34926, .write 46541, .write 34825, .write 11134, .flush, .flush, .fsync, .close, .flush, .fsyncDir, .rename]),
-  ("str-large", [.other "open-abkey0000000000000000000000000000000000.jugtmp", .write 2, .write 0, .write 0, .write 0, .write 126, .flush, .flush, .fsync, .close, .flush, .fsyncDir, .rename]),
-  ("none", [.other "open-abkey0000000000000000000000000000000000.jugtmp", .flush, .fsync, .close, .flush, .fsyncDir, .rename]),
-  ("npy", [.other "open-abkey0000000000000000000000000000000000.jugtmp", .write 128, .flush, .writeDirect 8000, .flush, .fsync, .close, .flush, .fsyncDir, .rename]),
-  ("npy-large", [.other "open-abkey0000000000000000000000000000000000.jugtmp", .write 128, .flush, .writeDirect 1600000, .flush, .fsync, .close, .flush, .fsyncDir, .rename]),
-  ("npy-empty", [.other "open-abkey0000000000000000000000000000000000.jugtmp", .write 128, .flush, .flush, .fsync, .close, .flush, .fsyncDir, .rename]),
-  ("npy-0d", [.other "open-abkey0000000000000000000000000000000000.jugtmp", .write 128, .flush, .writeDirect 8, .flush, .fsync, .close, .flush, .fsyncDir, .rename]),
-  ("npy-fortran", [.other "open-abkey0000000000000000000000000000000000.jugtmp", .write 128, .flush, .writeDirect 96, .flush, .fsync, .close, .flush, .fsyncDir, .rename]),
-  ("npy-strided", [.other "open-abkey0000000000000000000000000000000000.jugtmp", .write 128, .flush, .writeDirect 272, .flush, .fsync, .close, .flush, .fsyncDir, .rename]),
-  ("npy-object-small", [.other "open-abkey0000000000000000000000000000000000.jugtmp", .write 128, .write 160, .flush, .fsync, .close, .flush, .fsyncDir, .rename]),
-  ("npy-object-large", [.other "open-abkey0000000000000000000000000000000000.jugtmp", .write 128, .write 39048, .flush, .fsync, .close, .flush, .fsyncDir, .rename]),
-  ("npy-datetime", [.other "open-abkey0000000000000000000000000000000000.jugtmp", .write 128, .flush, .writeDirect 16, .flush, .fsync, .close, .flush, .fsyncDir, .rename]),
-  ("npy-compressed", [.other "open-abkey0000000000000000000000000000000000.jugtmp", .write 2, .write 0, .write 0, .write 1640, .flush, .flush, .fsync, .close, .flush, .fsyncDir, .rename]),
-  ("dict-of-arrays", [.other "open-abkey0000000000000000000000000000000000.jugtmp", .write 2, .write 0, .write 160, .flush, .flush, .fsync, .close, .flush, .fsyncDir, .rename]),
+  ("pickle-small", [.mkstemp, .write 2, .write 0, .write 24, .flush, .flush, .fsync, .close, .flush, .fsyncDir, .rename]),
+  ("pickle-large", [.mkstemp, .write 2, .write 34926, .write 46541, .write 34825, .write 11134, .flush, .flush, .fsync, .close, .flush, .fsyncDir, .rename]),
+  ("str-large", [.mkstemp, .write 2, .write 0, .write 0, .write 0, .write 126, .flush, .flush, .fsync, .close, .flush, .fsyncDir, .rename]),
+  ("none", [.mkstemp, .flush, .fsync, .close, .flush, .fsyncDir, .rename]),
+  ("npy", [.mkstemp, .write 128, .flush, .writeDirect 8000, .flush, .fsync, .close, .flush, .fsyncDir, .rename]),
+  ("npy-large", [.mkstemp, .write 128, .flush, .writeDirect 1600000, .flush, .fsync, .close, .flush, .fsyncDir, .rename]),
+  ("npy-empty", [.mkstemp, .write 128, .flush, .flush, .fsync, .close, .flush, .fsyncDir, .rename]),
+  ("npy-0d", [.mkstemp, .write 128, .flush, .writeDirect 8, .flush, .fsync, .close, .flush, .fsyncDir, .rename]),
+  ("npy-fortran", [.mkstemp, .write 128, .flush, .writeDirect 96, .flush, .fsync, .close, .flush, .fsyncDir, .rename]),
+  ("npy-strided", [.mkstemp, .write 128, .flush, .writeDirect 272, .flush, .fsync, .close, .flush, .fsyncDir, .rename]),
+  ("npy-object-small", [.mkstemp, .write 128, .write 160, .flush, .fsync, .close, .flush, .fsyncDir, .rename]),
+  ("npy-object-large", [.mkstemp, .write 128, .write 39048, .flush, .fsync, .close, .flush, .fsyncDir, .rename]),
+  ("npy-datetime", [.mkstemp, .write 128, .flush, .writeDirect 16, .flush, .fsync, .close, .flush, .fsyncDir, .rename]),
+  ("npy-compressed", [.mkstemp, .write 2, .write 0, .write 0, .write 1640, .flush, .flush, .fsync, .close, .flush, .fsyncDir, .rename]),
+  ("dict-of-arrays", [.mkstemp, .write 2, .write 0, .write 160, .flush, .flush, .fsync, .close, .flush, .fsyncDir, .rename]),
   ("resave-pack", [.lockGet, .mkstemp, .write 2, .write 0, .write 59, .flush, .flush, .fsync, .close, .flush, .fsyncDir, .rename, .lockRelease]),
-  ("packed-overwrite-0", [.other "open-abkey0000000000000000000000000000000000.jugtmp", .write 2, .write 0, .write 26, .flush, .flush, .fsync, .close, .flush, .fsyncDir, .rename]),
+  ("packed-overwrite-0", [.mkstemp, .write 2, .write 0, .write 26, .flush, .flush, .fsync, .close, .flush, .fsyncDir, .rename]),
   ("packed-overwrite-1", [.lockGet, .mkstemp, .write 2, .write 0, .write 36, .flush, .flush, .fsync, .close, .flush, .fsyncDir, .rename, .lockRelease])]
 def packedOverwritePublishesFirst : Bool := true
 /-- the commands redis_store.dump sends that change the result key, per case (overwrite of an existing key) -/
